@@ -40,6 +40,7 @@ EXPLANATION += (" R-C09-4 now decides each load safety factor per P_L case on th
 EXPLANATION += (" R-C09-10 (shared with R-C10-4): per-point knee values are spread over the hysteresis table in the table's row order.")
 EXPLANATION += (" R-C09-9: the frame the damage parameter writes its P_RAM column into is the object's own copy, not the caller's table (effect analysis: provenance of the attribute).")
 EXPLANATION += (" R-C09-8: no root finder in the FKM-nonlinear modules is applied to the absolute value of its residual (kink at the root, no sign change); where compute_beta is the closed form -ppf(P_A) / isf(P_A), R-C09-7 records that as the negative standard-normal quantile.")
+EXPLANATION += (' R-C09-11: the closures returned by get_lifetime_functions of the damage calculators (N_max_bearable, failure_probability) write no object state that is not restored in a finally clause of the same closure; otherwise the calculator reports the lifetime of the last queried failure probability.')
 ASSUMPTIONS = ["P_Z, P_D, N positive; d_1, d_2, d_RAJ negative (checked by the curve validators)",
                "statistics.NormalDist().inv_cdf is the standard normal quantile"]
 
@@ -122,8 +123,69 @@ class CurveNF:
 
 
 def run(ctx):
-    for r in (_curves, _pram, _constants, _beta, _half, _accumulation, _complement, _signed_residuals, _own_table, _knee_layout):
+    for r in (_curves, _pram, _constants, _beta, _half, _accumulation, _complement, _signed_residuals, _own_table, _knee_layout,
+              _query_functions_pure):
         ctx.attempt(r)
+
+
+def state_writes_of_closures(fn_node):
+    """writes to object state (self.<attr> = ..., self.<attr>[...] = ..., self.<attr>.<x> = ...) inside the nested functions of a
+    method, each with the information whether a `finally` clause of an enclosing `try` inside the same closure assigns the same
+    attribute again (state restored on every exit)"""
+    out = []
+    for h in [n for n in ast.walk(fn_node) if isinstance(n, (ast.FunctionDef, ast.Lambda)) and n is not fn_node]:
+        def attr_of(t):
+            while isinstance(t, (ast.Subscript, ast.Attribute)) and not is_self_attr(t):
+                t = t.value
+            return t.attr if is_self_attr(t) else None
+        tries = [t for t in ast.walk(h) if isinstance(t, ast.Try) and t.finalbody]
+        for st in ast.walk(h):
+            tg = st.targets if isinstance(st, ast.Assign) else [st.target] if isinstance(st, (ast.AugAssign, ast.AnnAssign)) else []
+            for t in tg:
+                for el in (t.elts if isinstance(t, (ast.Tuple, ast.List)) else [t]):
+                    a = attr_of(el)
+                    if a is None:
+                        continue
+                    in_final = any(any(x is st for fb in t_.finalbody for x in ast.walk(fb)) for t_ in tries)
+                    if in_final:
+                        continue
+                    restored = any(any(x is st for b_ in t_.body for x in ast.walk(b_)) and
+                                   any(attr_of(tt) == a for fb in t_.finalbody for s2 in ast.walk(fb) if isinstance(s2, ast.Assign)
+                                       for tt in s2.targets) for t_ in tries)
+                    out.append((st, a, restored))
+    return out
+
+
+def _query_functions_pure(ctx):
+    """R-C09-11: the functions a damage calculator hands out for probabilistic queries (N_max_bearable, failure_probability)
+    evaluate the lifetime for a shifted curve.  They must leave the calculator as it was: a closure that overwrites the N / D
+    columns of the calculator's table makes `lifetime_n_cycles` and `lifetime_n_times_load_sequence` report the lifetime of the
+    last queried failure probability instead of the accumulated damage of the component curve.  Every write to object state in
+    such a closure has to be undone in a `finally` clause (or be made on a local copy)."""
+    prog = ctx.prog
+    ctx.rule("R-C09-11", floor=2, what="query closures handed out by the damage calculators leave the calculator's state unchanged")
+    ex = ast.parse("def f(self):\n    def q(p):\n        self._t['N'] = p\n        return self.n\n"
+                   "    def r(p):\n        keep = self._t['N'].copy()\n        try:\n            self._t['N'] = p\n            return self.n\n"
+                   "        finally:\n            self._t['N'] = keep\n    return q, r\n").body[0]
+    w = state_writes_of_closures(ex)
+    if [(a, r) for _, a, r in w] != [("_t", False), ("_t", True)]:
+        raise AnalysisError("R-C09-11 built-in example not matched")
+    n = 0
+    for key, fi in sorted(prog.functions.items()):
+        if not key.startswith(DC) or fi.cls is None or fi.parent is not None or fi.name != "get_lifetime_functions":
+            continue
+        n += 1
+        ws = state_writes_of_closures(fi.node)
+        bad = [(st, a) for st, a, restored in ws if not restored]
+        for st, a in bad:
+            ctx.violated(fi, st, "%s.%s: the query closure overwrites self.%s (%s) and does not restore it: afterwards the "
+                         "calculator reports the lifetime of the last queried failure probability, not the accumulated damage of "
+                         "the component curve" % (fi.cls.name, fi.name, a, norm_text(st)[:60]), text="closure writes self.%s" % a)
+        if not bad:
+            ctx.holds(fi, fi.node, "%s.get_lifetime_functions: %d state writes in the closures, all restored in a finally clause"
+                      % (fi.cls.name, len(ws)))
+    if n < 2:
+        raise AnalysisError("get_lifetime_functions of the two damage calculators not found")
 
 
 def _knee_layout(ctx):
@@ -1087,6 +1149,24 @@ LP = "src/pylife/strength/fkm_load_distribution.py"
 
 def variants():
     out = []
+
+    def leak(tree):
+        f = find_func(tree, "DamageCalculatorPRAM.get_lifetime_functions")
+        for h in [n for n in ast.walk(f) if isinstance(n, ast.FunctionDef) and n is not f]:
+            for i_, st in enumerate(h.body):
+                if isinstance(st, ast.Try) and st.finalbody:
+                    h.body[i_:i_ + 1] = st.body
+                    return True
+        return False
+    out.append(witness("N_max_bearable overwrites the calculator's N and D columns for good", DCP, leak, "R-C09-11"))
+
+    def restore_columnwise(tree):
+        f = find_func(tree, "DamageCalculatorPRAM.get_lifetime_functions")
+        for t in [n for n in ast.walk(f) if isinstance(n, ast.Try) and n.finalbody]:
+            t.finalbody = [parse_stmt("self._collective['N'] = original_N_and_D['N']"), parse_stmt("self._collective['D'] = original_N_and_D['D']")]
+            return True
+        return False
+    out.append(twin("columns restored one by one", DCP, restore_columnwise))
 
     def alias_table(tree):
         f = find_func(tree, "P_RAM.__init__")
